@@ -72,7 +72,7 @@ def replay_instances(ctx):
     if ctx.tier == "thorough":
         out += [
             # every connection dynamic
-            inst("rsvp-full", "rsvp", ("time", "updown", "probe", "rabort", "close"), static=()),
+            inst("rsvp-full", "rsvp", ("time", "updown", "probe", "rabort", "close"), static=(), off=("u3",)),
             # the ASN population with probes, the client leaving before the answer, only the no-IP link static
             inst("asn-full", "asn", ("time", "updown", "probe", "rabort"), static=("n1",), MaxRes=3, MaxPerIP=2, MaxPerASN=1),
             # MaxCircuits 2: the caps are reached by two attempts of the same peer
